@@ -78,8 +78,8 @@ ElemConv(ty, v) ==
   CASE IsBad(v) -> v
     [] v.k = "sym" -> v
     [] ~IsNum(v) -> Unspec
-    [] ty = "int" -> (CASE v.k = "int" -> v [] v.k = "complex" -> Raise("BSE", "arraytype") [] OTHER -> Unspec)
-    [] ty = "float" -> (CASE v.k = "int" -> Num("float", v.re, v.im) [] v.k = "float" -> v [] OTHER -> Raise("BSE", "arraytype"))
+    [] ty = "int" -> (CASE v.k = "int" -> v [] v.k = "complex" -> Raise("other", "arraytype") [] OTHER -> Unspec)
+    [] ty = "float" -> (CASE v.k = "int" -> Num("float", v.re, v.im) [] v.k = "float" -> v [] OTHER -> Raise("other", "arraytype"))
     [] ty = "complex" -> (IF v.x THEN Num("complex", v.re, v.im) ELSE Inx("complex", v.term))
     [] OTHER -> Unspec
 
@@ -88,7 +88,7 @@ IsBarePar(e) == e.t = "par"
 ArrayValue(it, V, PN) ==
   LET rows == [r \in 1..Len(it.rows) |-> [c \in 1..Len(it.rows[r]) |->
                  IF IsBarePar(it.rows[r][c]) THEN Sym(TPar(it.rows[r][c].p))
-                 ELSE LET v == Eval(it.rows[r][c], V, PN) IN IF v.k = "sym" THEN Raise("BSE", "arraytype") ELSE ElemConv(it.ty, v)]]
+                 ELSE LET v == Eval(it.rows[r][c], V, PN) IN IF v.k = "sym" THEN Raise("other", "arraytype") ELSE ElemConv(it.ty, v)]]
       flat == Flatten(rows)
       bad == SeqBad(flat, 1)
       nrows == Len(rows)
@@ -98,12 +98,12 @@ ArrayValue(it, V, PN) ==
   IN CASE bad # None -> bad
        [] it.ty \notin {"int", "float", "complex"} -> Unspec
        [] nrows = 0 -> Unspec
-       [] whole -> IF Len(it.shape) = 0 THEN Raise("BSE", it.x)
+       [] whole -> IF Len(it.shape) = 0 THEN Raise("other", "noshape")
                    ELSE IF Len(it.shape) # 2 THEN Unspec
                    ELSE Arr(it.ty, [r \in 1..it.shape[1] |-> [c \in 1..it.shape[2] |->
                            Sym(TPar(flat[1].term.p \o "_" \o ToString(r - 1) \o "_" \o ToString(c - 1)))]])
        [] ragged -> Raise("other", "ragged")
-       [] Len(it.shape) > 0 /\ it.shape # <<nrows, Len(rows[1])>> -> Raise("BSE", it.x)
+       [] Len(it.shape) > 0 /\ it.shape # <<nrows, Len(rows[1])>> -> Raise("other", "shape")
        [] OTHER -> Arr(it.ty, rows)
 ArrayParams(it) ==      \* parameter symbols the declaration leaves in the parameter list
   LET flat == Flatten(it.rows)
